@@ -65,6 +65,7 @@ package checkgroup
 
 //@ func Checkgroup.Add
 //@   trusted
+//@   requires check != nil
 //@   modifies gerr(recv), gmem(recv)
 //@   ensures gerr(recv) == (old(gerr(recv)) || closureof(check, ErrorFunc$1))
 //@   ensures gmem(recv) == (old(gmem(recv)) || !(closureof(check, ErrorFunc$1) || closureof(check, NotMemberFunc) || closureof(check, UnknownMemberFunc)))
@@ -99,8 +100,37 @@ package checkgroup
 
 //@ func receiveRemaining
 //@   props C15
+//@   opt receives ch remaining
 //@   requires ch != nil
 //@   modifies chanstate(ch)
 //@   ensures remaining >= 0 ==> recvd(ch) == old(recvd(ch)) + remaining
 //@   loop 1 invariant 0 <= i && (remaining >= 0 ==> i <= remaining) && recvd(ch) == old(recvd(ch)) + i
 //@   loop 1 decreases remaining - i
+
+// The consumer goroutine. What is proved locally:
+//  * (C03) it stops at the first result that carries an error or says IsMember and
+//    reports exactly that result: every result received before was neither (loop invariant
+//    over the ghost receive history), so an error can never be overwritten by a later answer;
+//  * (C03) whatever it stores in g.result satisfies the Result invariant (field invariant);
+//  * (C15) finished <= total, every spawned check is accounted for, and on exit the drain
+//    goroutine is asked to receive exactly the results still owed (abandon-safety).
+//@ chaninv checkgroup.CheckFunc: msg != nil
+
+//@ func (*concurrentCheckgroup).Add
+//@   props C15
+//@   noframe
+//@   requires g != nil && check != nil && g.reserveCheckCh != nil && g.addCheckCh != nil && g.subcheckCtx != nil
+
+//@ func (*concurrentCheckgroup).startConsumer$1$1
+//@   props C03 C15
+//@   opt abandon-props C15
+//@   opt recv-le-expected
+//@   noframe
+//@   requires g != nil && g.ctx != nil && g.subcheckCtx != nil && g.cancel != nil && g.doneCh != nil && g.addCheckCh != nil && g.finalizeCh != nil && g.reserveCheckCh != nil
+//@   loop 1 invariant resultCh != nil && chancap(resultCh) == 1 && g != nil && g.subcheckCtx != nil && g.ctx != nil
+//@   loop 1 invariant 0 <= finishedChecks && finishedChecks <= totalChecks
+//@   loop 1 invariant expected(resultCh) == totalChecks && recvd(resultCh) == finishedChecks
+//@   loop 1 invariant forall k in 0..recvd(resultCh) :: hist(resultCh, k).Err == nil && hist(resultCh, k).Membership != IsMember
+
+//@ func (*concurrentCheckgroup).startConsumer$1$1$1
+//@   inline
